@@ -9,7 +9,7 @@ from tv.props import c17 as C17
 ID = 'C18'
 LEVEL = 'fault_enumeration'
 QUICK_S = 60
-THOROUGH_S = 900
+THOROUGH_S = 300
 TECHNIQUE = ('runtime monitoring with fault injection: every file of the import closure x every failure phase; repository '
              'census (global repository contents by file name and object identity, repositories reachable from surviving '
              'models) before and after the failed attempt; repaired reload with identity checks')
@@ -215,7 +215,7 @@ def one(ctx, i, rep=None):
 
 
 def run(ctx):
-    for i in ctx.indices(600 if ctx.tier == 'quick' else 4000, 'random'):
+    for i in ctx.indices(600 if ctx.tier == 'quick' else 10 ** 7, 'random'):
         one(ctx, i)
 
 
